@@ -16,6 +16,8 @@ claimed={
              ref="§3 C19", technique=T),
  "C20": dict(text="Sequential discipline whose conjunction implies race freedom of the runtime helpers: frame obligations (no store to captured variables or globals) for per-request closures and lock-state obligations for mutex-protected state. Real schedules and generated servers are not addressed.",
              ref="§3 C20", technique=T),
+ "C17": dict(text="Sequential part: ValidateFormat dispatches every format to its own parser and its verdict is exactly that parser's (uninterpreted acceptance predicates), IP = IPv4 xor IPv6, regex-defined formats compared with specification languages in the SMT regular-expression theory (literal re-extracted from the source each run), ValidatePattern's cache invariant makes the verdict a function of (pattern, value) and every cache access happens under the lock in the right mode.",
+             ref="§3 C17", technique=T),
  "C18": dict(text="Every obligation is a verification condition generated from the SSA of the real functions (MergeErrors, asError, History, StatusCode, ...) against contracts whose ★ clauses are transcribed from the property (merge algebra, status table); discharged for all inputs by z3/cvc5.",
              ref="§3 C18", technique=T),
 }
